@@ -87,8 +87,10 @@ def zip_rule(ctx, fv):
             freqs = ("local", bk[0][1]["name"], bk[0][0])
     item0 = ("item", it)
     if it[0] == "call" and it[1].endswith("Iterator::zip"):
-        ok = it[2][0] == "call" and it[2][1].endswith("::iter") \
-            and it[2][2] == SF("kmers") and it[3][0] == "call" and it[3][1].endswith("::iter") and it[3][2] == freqs
+        rhs = it[3]
+        if rhs[0] == "call" and rhs[1].split("::")[-1] in ("iter", "into_iter") and len(rhs) == 3:
+            rhs = rhs[2]               # `.zip(freqs.iter())`, `.zip(freqs)` and `.zip(freqs.into_iter())` walk the same vector
+        ok = it[2][0] == "call" and it[2][1].endswith("::iter") and it[2][2] == SF("kmers") and rhs == freqs
         kmer_t, freq_t = ("proj", 0, item0), ("proj", 1, item0)
     else:
         # equivalent: `for (idx, kmer) in self.kmers.iter().enumerate() { let freq = freqs[idx]; .. }`
